@@ -1,6 +1,7 @@
 package props
 
 import (
+	"go/types"
 	"fmt"
 
 	"golang.org/x/tools/go/ssa"
@@ -20,6 +21,7 @@ func checkC10(c *Ctx) {
 		return
 	}
 	c.getSessionContract()
+	c.sessionStoreUntouchedBeforeAuth()
 	c.restoreSubscriptions()
 	teardownOrder(c, "C10")
 	c.sessionTopicRecord()
@@ -33,13 +35,18 @@ func checkC10(c *Ctx) {
 	}
 }
 
-func (c *Ctx) getSessionContract() {
-	var fn *ssa.Function
+// sessionLookupFn: the Server method that looks a session up and creates one.
+func (c *Ctx) sessionLookupFn() *ssa.Function {
 	for _, f := range c.P.Funcs {
 		if recvNamed(f) == "Server" && len(c.calls(f, pkgSessions, "Manager", "Get")) > 0 && len(c.calls(f, pkgSessions, "Manager", "New")) > 0 {
-			fn = f
+			return f
 		}
 	}
+	return nil
+}
+
+func (c *Ctx) getSessionContract() {
+	fn := c.sessionLookupFn()
 	if fn == nil {
 		c.R.Unresolved("session lookup/creation function of Server (Manager.Get + Manager.New)")
 		return
@@ -93,24 +100,7 @@ func (c *Ctx) getSessionContract() {
 			}
 		}
 	}
-	// the store is keyed by the client identifier only
-	for _, call := range ir.Calls(fn) {
-		for _, m := range []string{"New", "Get"} {
-			if !ir.IsMethod(call.Common(), pkgSessions, "Manager", m) {
-				continue
-			}
-			k := ir.SeeThrough(call.Common().Args[1])
-			ok := false
-			if cv, isC := k.(*ssa.Convert); isC {
-				if cc, isCall := ir.SeeThrough(cv.X).(*ssa.Call); isCall && ir.IsMethod(cc.Common(), pkgMessage, "ConnectMessage", "ClientID") {
-					ok = true
-				}
-			}
-			c.R.Check(ok, ruleP9, "getSession:"+m+":keyed-by-client-id", c.P.InstrPos(call), "key = string(req.ClientID())", "the session store is not keyed by the CONNECT's client identifier alone: sessions of different clients can be confused")
-		}
-	}
-	// the lookup result is what the service uses, and Update/Init are applied to the service's session
-	// (covered by the scenario contracts above through nonnil(svc.sess))
+	c.sessionKeyedByFinalID(fn)
 }
 
 // restoreSubscriptions: P5/P4 in start.
@@ -257,6 +247,34 @@ func (c *Ctx) sessionTopicRecord() {
 			}
 		}
 		c.R.Check(rng != nil && napp == 2, ruleT5, "Session.Topics:lists-every-recorded-filter", c.P.Pos(tops.Pos()), "ranges over the record and returns every filter with its QoS", "Topics() does not list every recorded (filter, QoS) pair: teardown leaves subscriptions in the tree / a resume does not restore them")
+		// the two lists are parallel (index i of one belongs to index i of the other: start() pairs them by
+		// index): after they were filled neither may be handed to anything that can reorder or change it alone
+		var offenders []string
+		for _, call := range ir.Calls(tops) {
+			cc := call.Common()
+			if bi, ok := cc.Value.(*ssa.Builtin); ok && (bi.Name() == "append" || bi.Name() == "len" || bi.Name() == "cap") {
+				continue
+			}
+			for _, a := range cc.Args {
+				if _, isSl := a.Type().Underlying().(*types.Slice); !isSl {
+					continue
+				}
+				v := ir.SeeThrough(a)
+				if mi, ok := v.(*ssa.MakeInterface); ok {
+					v = ir.SeeThrough(mi.X)
+				}
+				// a list built by this function: a loop-carried phi / an append result
+				switch x := v.(type) {
+				case *ssa.Phi:
+					offenders = append(offenders, calleeShort(cc)+" at "+c.P.InstrPos(call))
+				case *ssa.Call:
+					if bi, ok := x.Common().Value.(*ssa.Builtin); ok && bi.Name() == "append" {
+						offenders = append(offenders, calleeShort(cc)+" at "+c.P.InstrPos(call))
+					}
+				}
+			}
+		}
+		c.R.Check(len(offenders) == 0, ruleT5, "Session.Topics:parallel-lists-stay-in-step", c.P.Pos(tops.Pos()), "filters and QoS values are appended pairwise and returned as built", "one of the two parallel result lists of Topics() is passed to "+joinStr(offenders, ", ")+" after it was built: reordering (or changing) one list alone pairs every filter with another filter's QoS, and a resumed session is re-subscribed with the granted QoS values permuted")
 	}
 }
 
@@ -306,4 +324,39 @@ func (c *Ctx) sessionStore() {
 		}
 		c.R.Check(ok, ruleP9, "Manager."+m+":passes-id-through", c.P.Pos(fn.Pos()), "delegates to the provider with the same id", "Manager."+m+" does not delegate with the id it was given")
 	}
+}
+
+// sessionKeyedByFinalID: P9 for the session store key in the session lookup helper.
+func (c *Ctx) sessionKeyedByFinalID(fn *ssa.Function) {
+	// the store is keyed by the client identifier only
+	for _, call := range ir.Calls(fn) {
+		for _, m := range []string{"New", "Get"} {
+			if !ir.IsMethod(call.Common(), pkgSessions, "Manager", m) {
+				continue
+			}
+			k := ir.SeeThrough(call.Common().Args[1])
+			ok := false
+			if cv, isC := k.(*ssa.Convert); isC {
+				if cc, isCall := ir.SeeThrough(cv.X).(*ssa.Call); isCall && ir.IsMethod(cc.Common(), pkgMessage, "ConnectMessage", "ClientID") {
+					ok = true
+				}
+			}
+			c.R.Check(ok, ruleP9, "getSession:"+m+":keyed-by-client-id", c.P.InstrPos(call), "key = string(req.ClientID())", "the session store is not keyed by the CONNECT's client identifier alone: sessions of different clients can be confused")
+			// ... and by the identifier the connection ends up with: the key is read after any replacement of
+			// the identifier (an empty id is replaced by a generated one), because teardown deletes under
+			// Session.ID() = the stored CONNECT's identifier
+			if ok {
+				idCall := ir.SeeThrough(k.(*ssa.Convert).X).(*ssa.Call)
+				stale := false
+				for _, other := range ir.Calls(fn) {
+					if ir.IsMethod(other.Common(), pkgMessage, "ConnectMessage", "SetClientID") && ir.CanReach(idCall, other) && ir.CanReach(other, call) {
+						stale = true
+					}
+				}
+				c.R.Check(!stale, ruleP9, "getSession:"+m+":key-read-after-id-replacement", c.P.InstrPos(idCall), "no SetClientID lies between the read of the key and its use", "the store key is read from the CONNECT before its client identifier is replaced (SetClientID) and used afterwards: the session is stored under another key than the identifier it carries, so teardown's Del(Session.ID()) deletes nothing and the clean session stays in the store")
+			}
+		}
+	}
+	// the lookup result is what the service uses, and Update/Init are applied to the service's session
+	// (covered by the scenario contracts above through nonnil(svc.sess))
 }
